@@ -141,6 +141,11 @@ THEOREMS = {
             "JP.C06.malformed_false", "JP.C06.equal_spec", "JP.C06.eqCC_symm", "JP.C06.eqCC_refl",
             "JP.C06.eqCC_trans", "JP.C06.equal_symm'", "JP.C06.equal_trans'", "JP.C06.equal_refl",
         ],
+        "JP.Props.C06dup": [
+            "JP.C06.eqCC_symm_all", "JP.C06.eqCC_refl_all", "JP.C06.eqCC_trans_all", "JP.C06.eqCC_obj_iff",
+            "JP.C06.eqCC_obj_same_names", "JP.C06.equal_symm_all", "JP.C06.equal_refl_all", "JP.C06.equal_refl_wf",
+            "JP.C06.equal_trans_all", "JP.C06.c06rel_sound",
+        ],
     },
     "C07": {
         "JP.Props.C07bytes": [
